@@ -55,6 +55,12 @@ TIERS = {
             ('typed', dict(
                 Templates={"typ2", "typd", "typ3"}, MaxN=2, MaxEvents=2, MaxMakers=1,
                 PartialIn={"typ2", "typd", "typ3"}, RefIn={"none"}, TwoHoles=True)),
+            # NESTED inline functions / constructors in the body read a variable bound two scopes up; the outer
+            # function item is called where that variable is unbound (or bound differently)
+            ('nested', dict(
+                Templates={"nest2", "nestshadow", "nest3", "nestlet", "nesthof", "curry",
+                           "bodyarr", "bodymap", "bodysome", "bodyfor", "bodypart"},
+                MaxN=2, MaxEvents=2, MaxMakers=0, PartialIn={"none"}, RefIn={"none"}, TwoHoles=False)),
             # named references to focus-dependent functions made by  source ! name#0  and called later
             ('focus', dict(
                 Templates={"refpos", "refstr", "refslen", "refnlen", "refname"}, MaxN=3, MaxEvents=3, MaxMakers=0,
@@ -62,6 +68,7 @@ TIERS = {
         ],
         hof=[('d2', dict(MaxDepth=2, MaxLen=3, UniverseName='u4', Big=True))],
         mixed=[('len3', dict(MaxDepth=2, MaxLen=3, UniverseName='u4', Big=True))],
+        coll=[('len3', dict(MaxDepth=2, MaxLen=3, UniverseName='u4', Big=True))],
     ),
     'thorough': dict(
         closures=[
@@ -85,12 +92,19 @@ TIERS = {
             ('typed', dict(
                 Templates={"typ2", "typd", "typ3"}, MaxN=2, MaxEvents=3, MaxMakers=1,
                 PartialIn={"typ2", "typd", "typ3"}, RefIn={"none"}, TwoHoles=True)),
+            # NESTED inline functions / constructors in the body read a variable bound two scopes up; the outer
+            # function item is called where that variable is unbound (or bound differently)
+            ('nested', dict(
+                Templates={"nest2", "nestshadow", "nest3", "nestlet", "nesthof", "curry",
+                           "bodyarr", "bodymap", "bodysome", "bodyfor", "bodypart"},
+                MaxN=2, MaxEvents=3, MaxMakers=0, PartialIn={"none"}, RefIn={"none"}, TwoHoles=False)),
             ('focus', dict(
                 Templates={"refpos", "refstr", "refslen", "refnlen", "refname"}, MaxN=3, MaxEvents=4, MaxMakers=0,
                 PartialIn={"none"}, RefIn={"none"}, TwoHoles=False)),
         ],
         hof=[('d3', dict(MaxDepth=3, MaxLen=3, UniverseName='u4', Big=True))],
         mixed=[('len4', dict(MaxDepth=2, MaxLen=4, UniverseName='u4', Big=True))],
+        coll=[('len4', dict(MaxDepth=2, MaxLen=4, UniverseName='u4', Big=True))],
     ),
 }
 
@@ -128,6 +142,10 @@ def render(e, args_text: str | None = None) -> str:
         return f'({render(e["e"], args_text)} instance of {e["t"]})'
     if k == 'map':
         return f'({render(e["s"], args_text)} ! {render(e["r"], args_text)})'
+    if k == 'some':
+        return f'(some ${e["v"]} in {render(e["s"], args_text)} satisfies {render(e["c"], args_text)})'
+    if k == 'mapk':
+        return f'map {{ "k": {render(e["e"], args_text)} }}?k'
     if k == 'kids':
         return f'/r/*[position() le {e["n"]}]'
     if k == 'fun':
@@ -166,6 +184,8 @@ def outer_text(outer) -> str:
 
 def ev_expr(e) -> dict:
     if e['a'] == 'call':
+        if e.get('curry'):      # $f(a)(b)
+            return {'k': 'call', 'f': {'k': 'call', 'f': e['f'], 'args': e['args'][:1]}, 'args': e['args'][1:]}
         return {'k': 'call', 'f': e['f'], 'args': e['args']}
     if e['a'] == 'partial':
         return {'k': 'call', 'f': e['f'], 'args': e['mask']}
@@ -346,7 +366,11 @@ def run_python_api(tpl: dict, n: int, events, version: str):
         for e in events:
             if e['a'] == 'call':
                 f = handles[e['h']]
-                results.append(project(f(*[py_arg(a, handles) for a in e['args']], context=ctx)))
+                pyargs = [py_arg(a, handles) for a in e['args']]
+                if e.get('curry'):
+                    results.append(project(f(pyargs[0], context=ctx)(pyargs[1], context=ctx)))
+                else:
+                    results.append(project(f(*pyargs, context=ctx)))
             elif e['a'] == 'partial':
                 mask = ', '.join(render(a) for a in e['mask'])
                 p = elementpath.select(None, f'$f({mask})', parser=parser_cls, item=1,
@@ -418,7 +442,8 @@ def closures_worker(job):
         call_idx = [j for j, e in enumerate(events) if e['a'] == 'call']
         exp = [abstract(v) for v in log]
         imp = [abstract(v) for v in ilog]
-        runs = [('xpath', v, run_xpath(text, v, doc=bool(tpl.get('doc')))) for v in ('3.0', '3.1')]
+        runs = [('xpath', v, run_xpath(text, v, doc=bool(tpl.get('doc'))))
+                for v in (('3.1',) if tpl.get('v31') else ('3.0', '3.1'))]
         runs.append(('python', '3.1', run_python_api(tpl, n, events, '3.1')))
         for binding, version, out in runs:
             n_eval += 1
@@ -456,7 +481,7 @@ def direct_worker(job):
         tpl = table[tpl_id]
         text = direct_text(tpl, h, args)
         exp, imp = abstract(val), abstract(ival)
-        for v in ('3.0', '3.1'):
+        for v in (('3.1',) if tpl.get('v31') else ('3.0', '3.1')):
             out = run_xpath(text, v, doc=bool(tpl.get('doc')))
             n_eval += 1
             obs = project(out[1]) if out[0] == 'ok' else None
@@ -496,6 +521,10 @@ def start_tlc(chk: core.Check, tier: dict, parts) -> dict:
         for name, consts in tier['hof']:
             wd = os.path.join(chk.scratch, 'hof-' + name)
             jobs[('hof', name, 'laws')] = ('HOF', tla.cfg_text(consts, invariants=['Laws']), wd, os.path.join(wd, 'g.dot'))
+        for name, consts in tier.get('coll', []):
+            wd = os.path.join(chk.scratch, 'coll-' + name)
+            jobs[('coll', name, 'laws')] = ('HOF', tla.cfg_text(consts, spec='SpecColl', invariants=['LawsColl']), wd,
+                                            os.path.join(wd, 'g.dot'))
         for name, consts in tier.get('mixed', []):
             wd = os.path.join(chk.scratch, 'mixed-' + name)
             jobs[('mixed', name, 'laws')] = ('HOF', tla.cfg_text(consts, spec='SpecMixed', invariants=['LawsMixed']), wd,
@@ -564,7 +593,7 @@ def run_closures(chk: core.Check, name: str, consts: dict, tlc: dict) -> None:
     # (iii) the equivalent direct calls
     rows = []
     for tpl_id, t in table.items():
-        for d in t['directs']:
+        for d in (t['directs'] or ()):
             rows.append((tpl_id, d['h'], d['args'], d['val'], d['ival']))
     rows.sort(key=lambda x: tla.to_tla(x[:3]))
     results = core.pool_map(direct_worker, [(table, c) for c in core.chunked(rows, 16)], procs=PROCS)
@@ -847,6 +876,109 @@ def run_mixed(chk: core.Check, name: str, consts: dict, tlc: dict) -> None:
           flush=True)
 
 
+
+# ---------------------------------------------------------------------------------------
+# HOF!SpecColl: the $collation argument of fn:sort in the 2- and 3-argument form
+
+COLL_TEXT = {'none': '()',
+             'cp': '"http://www.w3.org/2005/xpath-functions/collation/codepoint"',
+             'ci': '"http://www.w3.org/2005/xpath-functions/collation/html-ascii-case-insensitive"',
+             'bad': '"urn:x-no-such-collation"'}
+
+
+def coll_worker(job):
+    catalog, edges = job
+    import elementpath
+    from elementpath import XPathContext
+    fails, n_eval = [], 0
+    for (src, coll, key, dst) in edges:
+        words = [x['s'] for x in src]
+        stext = '(' + ', '.join(f'"{w}"' for w in words) + ')'
+        ftext = None if key == 'nokey' else render(catalog[key]['e'])
+        exp_err = any('err' in x for x in dst)
+        exp = abstract(dst)
+        ctext = COLL_TEXT[coll]
+        texts = []
+        if ftext is None:
+            texts.append(('inline', f'sort({stext}, {ctext})'))
+            if coll == 'none':
+                texts.append(('inline-1', f'sort({stext})'))
+            texts.append(('ref', f'let $srt := sort#2 return $srt({stext}, {ctext})'))
+            texts.append(('array', f'array:flatten(array:sort(array {{ {stext} }}, {ctext}))'))
+        else:
+            texts.append(('inline', f'sort({stext}, {ctext}, {ftext})'))
+            texts.append(('var', f'let $c := {ctext}, $f := {ftext} return sort({stext}, $c, $f)'))
+            texts.append(('ref', f'let $srt := sort#3 return $srt({stext}, {ctext}, {ftext})'))
+            texts.append(('array', f'array:flatten(array:sort(array {{ {stext} }}, {ctext}, {ftext}))'))
+        outs = [(style, text, run_xpath(text, '3.1')) for style, text in texts]
+
+        def api():
+            P = parsers()['3.1']
+            ctx = XPathContext(root=None, item=1)
+            c = [] if coll == 'none' else ctext.strip('"')
+            if ftext is None:
+                return P().get_function('sort', 2)(list(words), c, context=ctx)
+            fobj = elementpath.select(None, ftext, parser=P, item=1)
+            return P().get_function('sort', 3)(list(words), c, fobj, context=ctx)
+        outs.append(('python', f'get_function("sort")({words!r}, {ctext}, {ftext})', guarded(api)))
+        for style, text, out in outs:
+            n_eval += 1
+            if exp_err:
+                ok = out[0] == 'err'            # FOCH0002 is not named by the property: outcome class only
+            else:
+                ok = out[0] == 'ok' and project(out[1]) == exp
+            if not ok:
+                fails.append((dict(part='sortcoll', hof='sort', coll=coll, key=key, style=style, src_len=len(src),
+                                   expected_kind='err' if exp_err else 'value',
+                                   outcome='value' if out[0] == 'ok' else f'{out[0]}:{out[1]}'),
+                              dict(part='sortcoll', text=text, parser='3.1', style=style, expect_err=exp_err), exp,
+                              project(out[1]) if out[0] == 'ok' else list(out)))
+    return n_eval, fails
+
+
+def run_coll(chk: core.Check, name: str, consts: dict, tlc: dict) -> None:
+    # the spec ranks its four words by tables (HOF!CpRank, CiRank): cross-check them with Python's orders
+    if sorted(['b', 'A', 'a', 'B']) != ['A', 'B', 'a', 'b'] or sorted(['b', 'A', 'a', 'B'], key=str.lower) != ['A', 'a', 'b', 'B']:
+        raise tla.MachineryError('HOF!CpRank / CiRank disagree with codepoint / ASCII case-insensitive order')
+    dot = os.path.join(chk.scratch, 'coll-' + name, 'g.dot')
+    r = tla.require_ok(tlc[('coll', name, 'laws')], f'HOF.SpecColl/{name}', min_distinct=50)
+    chk.model(f'HOF.SpecColl/{name}', r)
+    catalog = load_table(r.output, 'catalog')
+    g = tla.load_dot(dot)
+    os.remove(dot)
+    jobs, distinct = [], set()
+    for s_, d_, a, args in g.edges:
+        if a != 'SortCollA':
+            raise tla.MachineryError(f'unexpected action {a} in SpecColl')
+        src, dst = g.states[s_]['acc'], g.states[d_]['acc']
+        jobs.append((src, args[0], args[1], dst))
+        # non-trivial: two words that differ in case only, or a codepoint order that differs from the ci order
+        ws = [x['s'] for x in src]
+        if len(ws) >= 2 and (len({w.lower() for w in ws}) < len(set(ws)) or sorted(ws) != sorted(ws, key=str.lower)):
+            distinct.add((src, args[0], args[1]))
+    need = {(c, k3) for c in ('none', 'cp', 'ci', 'bad') for k3 in (True, False)}
+    seen = {(j[1], j[2] != 'nokey') for j in jobs}
+    if need - seen:
+        raise tla.MachineryError(f'SpecColl: collation x form combinations never fired: {sorted(need - seen)}')
+    jobs.sort(key=lambda e: (e[1], e[2], tla.to_tla(e[0])))
+    chk.add('transitions', len(jobs))
+    chk.add('traces_validated_against_impl', len(jobs))
+    chk.add('distinct_nontrivial', len(distinct))
+    e = [j for j in jobs if j[1] == 'ci' and j[2] == 'ident' and len(j[0]) == 3][7]
+    chk.sample(dict(expr=f'sort(({", ".join(repr(x["s"]) for x in e[0])}), {COLL_TEXT["ci"]}, function($x) {{ $x }})',
+                    expected=abstract(e[3])))
+    results = core.pool_map(coll_worker, [(catalog, c) for c in core.chunked(jobs, 32)], procs=PROCS)
+    n_fail = 0
+    for n_eval, fails in results:
+        chk.add('evaluations', n_eval)
+        chk.add('sortcoll_evaluations', n_eval)
+        for feat, case, exp, obs in fails:
+            n_fail += 1
+            chk.fail(feat, case, exp, obs, what=(case['text'] or '')[:300])
+    print(f'  HOF.SpecColl/{name}: states={r.distinct} edges={len(jobs)} failing_comparisons={n_fail} tlc={r.wall_s:.1f}s',
+          flush=True)
+
+
 PROCS = int(os.environ.get('VERIF_PROCS', '12'))
 DEV_PART = 'all'
 FIRED: dict = {}
@@ -877,7 +1009,11 @@ def replay(rec: dict) -> int:
             parts = split_results(got)
             got = parts[case['call']] if case['call'] < len(parts) else None
     print('observed :', got)
-    if got != exp:
+    if case.get('expect_err'):
+        bad = not (isinstance(got, tuple) and got and got[0] == 'err')
+    else:
+        bad = got != exp
+    if bad:
         print('VIOLATION property=C16 replay=(replayed)')
         return 1
     return 0
@@ -909,6 +1045,8 @@ def run(chk: core.Check) -> None:
             run_hof(chk, name, consts, tlc)
         for name, consts in tier.get('mixed', []):
             run_mixed(chk, name, consts, tlc)
+        for name, consts in tier.get('coll', []):
+            run_coll(chk, name, consts, tlc)
     chk.coverage['exhaustive'] = True
     chk.coverage['rule'] = (
         'Closures: every leaf of the TLC forest (template x 1..3 iterations of one function expression x every '
@@ -918,4 +1056,6 @@ def run(chk: core.Check) -> None:
         'is one call, rendered with the function inline, bound to a variable, through parser.get_function, and with the '
         'source sequence literal or as the nested call chain that produced it; non-trivial = non-empty source sequence.  '
         'SpecMixed: every sequence up to the bound over 1, 1.0, 1e0, true(), 0, false() x 5 key functions, fn:sort and '
-        'array:sort; non-trivial = the input holds two items equal as Python values but different as XPath items.')
+        'array:sort; non-trivial = the input holds two items equal as Python values but different as XPath items.  '
+        'SpecColl: every sequence up to the bound over "b","A","a","B" x 4 collations (absent/empty, codepoint, '
+        'html-ascii-case-insensitive, unsupported) x 3 keys (absent, identity, string#1): sort, sort#n, array:sort, Python API.')
